@@ -72,3 +72,13 @@ void XMemory::operator delete(void* p) { free(p); }
 void XMemory::operator delete(void* p, MemoryManager*) { free(p); }
 void XMemory::operator delete(void*, void*) {}
 #endif
+
+#ifdef VX_STUB_NUMTOTEXT
+// formatting of numbers for exception/diagnostic texts is not the subject: empty bodies (cut XMLString::binToText / sizeToText, all overloads)
+#include <xercesc/util/XMLString.hpp>
+void XMLString::binToText(const unsigned int, XMLCh* const toFill, const XMLSize_t, const unsigned int, MemoryManager* const) { toFill[0] = '0'; toFill[1] = 0; }
+void XMLString::binToText(const unsigned long, XMLCh* const toFill, const XMLSize_t, const unsigned int, MemoryManager* const) { toFill[0] = '0'; toFill[1] = 0; }
+void XMLString::binToText(const int, XMLCh* const toFill, const XMLSize_t, const unsigned int, MemoryManager* const) { toFill[0] = '0'; toFill[1] = 0; }
+void XMLString::binToText(const long, XMLCh* const toFill, const XMLSize_t, const unsigned int, MemoryManager* const) { toFill[0] = '0'; toFill[1] = 0; }
+void XMLString::sizeToText(const XMLSize_t, XMLCh* const toFill, const XMLSize_t, const unsigned int, MemoryManager* const) { toFill[0] = '0'; toFill[1] = 0; }
+#endif
